@@ -46,6 +46,7 @@ type ReadObs struct {
 	Fields []int                     `json:"fields"`
 	Asc    bool                      `json:"asc"`
 	Kind   string                    `json:"kind"` // plain | zone
+	Arr    [][2]int                  `json:"arr,omitempty"` // flat read through ONE group cursor: (series, time) in arrival order
 	Rows   map[string][]tsdrv.OutRow `json:"rows"`
 }
 
@@ -352,6 +353,12 @@ func runHistory(idx int, work string, nser, nwal int, auto bool, in []Op, qr *ge
 				ro := ReadObs{Tmin: q.Tmin, Tmax: q.Tmax, Fields: q.Fields, Asc: q.Asc, Kind: "plain", Rows: map[string][]tsdrv.OutRow{}}
 				for s, rows := range d {
 					ro.Rows[strconv.Itoa(s)] = rows
+				}
+				if q.Flat && q.Parallel == 1 {
+					ro.Kind = "flat1"
+					for _, a := range arrival {
+						ro.Arr = append(ro.Arr, [2]int{a.S, a.T})
+					}
 				}
 				op.Reads = append(op.Reads, ro)
 			}
